@@ -155,6 +155,14 @@ def cases(tier, seed):
         dim = 3 if simp == "3D" else 2
         for s1 in letters(dim):
             out.append({"kind": "eigen", "simp": simp, "s1": s1})
+    # E2, depth 2: the split is evaluated, the stiffness of the material is replaced through the documented API, and the split
+    # is evaluated again: the parts must partition the stress and energy of the CURRENT stiffness
+    for split in SPLITS_ANY:
+        for simp in ("PE", "3D"):
+            for how in ("Set_C", "Set_C_keepS"):
+                if how == "Set_C_keepS" and split in STRESS_BASED:
+                    continue  # update_S=False leaves the compliance of the previous law in place: splits built on S are undefined there
+                out.append({"kind": "setC", "split": split, "simp": simp, "how": how})
     for cfg in hist_configs(tier):
         for l1 in LOADS:
             out.append({"kind": "hist", **cfg, "l1": l1, "depth": _hist_depth(tier)})
@@ -555,6 +563,57 @@ def _run_split(case):
     return {"violations": v, "fingerprint": fp(case["split"], case["simp"], case["mat"], case["dom"], s1, np.nan_to_num(np.concatenate(obs), nan=-7.0, posinf=-8.0, neginf=-9.0)),
             "nontrivial": nontriv, "transitions": ntr,
             "outcome": ("ok" if not v else "violation") + ("+gapskip" if skipped else ""), "skipped": None}
+
+
+def _run_setC(case):
+    from EasyFEA import Models
+
+    split, simp, how = case["split"], case["simp"], case["how"]
+    cfg = {"split": split, "simp": simp, "mat": "aniso", "dom": "strain"}
+    dim = 3 if simp == "3D" else 2
+    C = ref_C("aniso", simp)
+    n = C.shape[0]
+    r = rng("c17setC", simp)
+    B = r.normal(size=(n, n))
+    C0 = B @ B.T + n * np.eye(n)  # the stiffness the model starts with
+    material = Models.Elastic.Anisotropic(dim, C0.copy(), False)
+    model = Models.PhaseField(material, split, "AT2", 1.0, 0.5, "History")
+    L = letters(dim)
+    base = dict(split=split, simp=simp, mat="aniso", dom="strain", how=how)
+    v, obs, ntr = [], [], 0
+    for stage, Cs in (("initial", C0), (how, C)):
+        if stage != "initial":
+            if how == "Set_C":
+                material.Set_C(C.copy(), False)
+            else:
+                material.Set_C(C.copy(), False, update_S=False)
+            ntr += 1
+        for st in L:
+            e = letter_strain(cfg, Cs, st)
+            cl = _cls(cfg, Cs, e)
+            if cl[2] or (dim == 3 and cl[0] != "distinct"):
+                continue  # (3D states with repeated principal values: kind "split", known findings F-C17-3d-*)
+            got = call_api(model, e.reshape(1, 1, -1), True)
+            ntr += got["calls"]
+            key = dict(base, stage=stage, state=st)
+            nC, ne = np.linalg.norm(Cs, 2), np.linalg.norm(e)
+            sig = Cs @ e
+            cP, cM, sP, sM, pP, pM = (got[k][0, 0] for k in ("cP", "cM", "sP", "sM", "pP", "pM"))
+            obs.append(np.concatenate([sP, sM, [pP, pM]]))
+            if not all(np.all(np.isfinite(a)) for a in (cP, cM, sP, sM, pP, pM)):
+                v.append(viol("nonfinite", f"{_cfgname(cfg)} after {stage}: non-finite parts for eps={np.round(e, 6).tolist()}", **key))
+                continue
+            if np.max(np.abs(cP + cM - Cs)) > TOL_PART * 10 * nC:
+                v.append(viol("partition_C", f"{_cfgname(cfg)} after {stage}: max|cP + cM - C|/|C| = {np.max(np.abs(cP + cM - Cs)) / nC:.3e} "
+                                             f"(C = the stiffness currently set)", **key))
+            if np.max(np.abs(sP + sM - sig)) > TOL_PART * 10 * nC * ne:
+                v.append(viol("partition_stress", f"{_cfgname(cfg)} after {stage}: max|sigma+ + sigma- - C:eps| = {np.max(np.abs(sP + sM - sig)):.3e} "
+                                                  f"(scale {nC * ne:.3e})", **key))
+            if abs(pP + pM - 0.5 * e @ sig) > TOL_PART * 10 * 0.5 * nC * ne ** 2:
+                v.append(viol("partition_energy", f"{_cfgname(cfg)} after {stage}: |psi+ + psi- - eps:C:eps/2| = {abs(pP + pM - 0.5 * e @ sig):.3e}", **key))
+    v = _dedupe(v)[:12]
+    return {"violations": v, "fingerprint": fp("setC", split, simp, how, np.nan_to_num(np.concatenate(obs))), "nontrivial": True,
+            "transitions": ntr, "outcome": "ok" if not v else "violation"}
 
 
 def _run_amp(case):
